@@ -1238,3 +1238,38 @@ pub mod tls {
         })
     }
 }
+
+/// `Shutdown`'s crate-private participant side
+pub mod shutdown {
+    use crate::shutdown::{CompletionGuard, Notification, Shutdown};
+    use std::sync::{Arc, Mutex};
+
+    pub struct Participant {
+        notification: Notification,
+        /// `None` = registered after completion had begun: nobody waits for this participant
+        guard: Option<CompletionGuard>,
+    }
+
+    /// What every listener and session does first: subscribe and take a completion guard
+    pub fn register(shutdown: &Arc<Mutex<Shutdown>>) -> Participant {
+        let s = shutdown.lock().unwrap();
+        Participant {
+            notification: s.notification_handler(),
+            guard: s.completion_guard(),
+        }
+    }
+
+    impl Participant {
+        pub fn is_awaited(&self) -> bool {
+            self.guard.is_some()
+        }
+
+        /// `Notification::wait`: true = the shutdown was observed, false = the channel closed
+        pub async fn wait(&mut self) -> bool {
+            self.notification.wait().await.is_ok()
+        }
+
+        /// the participant has wound down
+        pub fn finish(self) {}
+    }
+}
